@@ -100,6 +100,36 @@ func Run(tier string, seed int64, outDir string) *common.Meta {
 			}
 		}
 	}
+	// 1b. flags that add bookkeeping around the workers (-v) must not make the result schedule dependent
+	diagOnly := func(stderr string) string {
+		var out []string
+		for _, l := range strings.Split(stderr, "\n") {
+			if regexp.MustCompile(`^\S+\.go:\d+:\d+: \w+: `).MatchString(l) || strings.HasPrefix(l, "fatal error") || strings.HasPrefix(l, "panic:") {
+				out = append(out, l)
+			}
+		}
+		return strings.Join(out, "\n")
+	}
+	for _, exe := range []string{"go-critic", "gocritic"} {
+		var vref string
+		for _, c := range []int{1, 4, 16} {
+			args := []string{"check", "-enableAll", "-v", fmt.Sprintf("-concurrency=%d", c), "./..."}
+			_, stderr, code, err := common.RunSplit(300*time.Second, base, env, filepath.Join(bin, exe), args...)
+			runs++
+			if err != nil {
+				meta.Fail("C04/"+exe+"/hang", fmt.Sprintf("-v -concurrency=%d: %v", c, err), args)
+				continue
+			}
+			key := fmt.Sprintf("%d\n%s", code, diagOnly(stderr))
+			if c == 1 {
+				vref = key
+				continue
+			}
+			if key != vref {
+				meta.Fail("C04/"+exe+"/output-depends-on-concurrency", fmt.Sprintf("%s -v: diagnostics with -concurrency=%d differ from -concurrency=1: %s", exe, c, firstDiff(vref, key)), map[string]interface{}{"args": args, "first_difference": firstDiff(vref, key)})
+			}
+		}
+	}
 	if ref["go-critic"] != ref["gocritic"] {
 		meta.Fail("C04/twin/differs", "the two mains print different output for -concurrency=1", nil)
 	}
